@@ -472,6 +472,7 @@ def _run_file(job):
     """job: one real file (size, kind, name, handler list, representative) fetched through every family."""
     n, kind, tok, hl, rep, fams, transports, sched = (job[k] for k in ("n", "kind", "name", "hl", "rep", "fams", "transports", "sched"))
     site = _SITE
+    reads0 = site.short_reads[0]
     row, rb, decs = _CTX["rows"][tok], _CTX["rb"], _CTX["decs"]
     data, lines = concretise(job["tokens"] if job.get("tokens") is not None else tokens_of(kind, n, rb), rep)
     isdec = job["dec"]
@@ -504,7 +505,7 @@ def _run_file(job):
                                                              ("/s" + "".join(map(str, sched)) if sched else "")
                                                              + ("/" + ",".join(job["tokens"]) if job.get("tokens") is not None else "")),
                            "init": init, "events": evs, "case": case, "extras": extras})
-    return traces, site.short_reads[0]
+    return traces, site.short_reads[0] - reads0
 
 
 def real_size(n, b, rb):
